@@ -98,6 +98,40 @@ def static_obligations(S):
     S.static_vc("options", FN_S, "hypnotoad_geqdsk refuses an option file with an unknown key before doing any work", refused, kind="native")
 
 
+def curvature_output_guard(S):
+    """The curl_bOverB_* fields are registered for output for exactly the curvature types for which
+    calc_curvature computes them (the guard in BoutMesh.geometry evaluated for every branch value of
+    calc_curvature's own case analysis)."""
+    from hypnotoad.core import mesh as M
+
+    g = ast.parse(textwrap.dedent(inspect.getsource(M.BoutMesh.geometry))).body[0]
+    guard = None
+    for n in ast.walk(g):
+        if isinstance(n, ast.If) and any(isinstance(c, ast.Call) and getattr(c.func, "id", "") == "addFromRegions" and c.args and getattr(c.args[0], "value", "") == "curl_bOverB_x" for st in n.body for c in ast.walk(st)):
+            guard = n
+    cc = ast.parse(textwrap.dedent(inspect.getsource(M.MeshRegion.calc_curvature))).body[0]
+    computing = []  # curvature_type literals whose branch assigns self.curl_bOverB_x
+    def branch_types(node):
+        if isinstance(node, ast.If):
+            lits = [c.value for c in ast.walk(node.test) if isinstance(c, ast.Constant) and isinstance(c.value, str)]
+            assigns = any(isinstance(t, ast.Attribute) and t.attr == "curl_bOverB_x" for st in node.body for a in ast.walk(st) if isinstance(a, ast.Assign) for t in a.targets)
+            if "curvature_type" in ast.unparse(node.test) and assigns:
+                computing.extend(lits)
+            for o in node.orelse:
+                branch_types(o)
+    for st in cc.body:
+        branch_types(st)
+    ok = guard is not None and len(computing) >= 2
+    bad = []
+    if ok:
+        for v in sorted(set(computing)) + ["bxkappa", "something else"]:
+            me = types.SimpleNamespace(user_options=types.SimpleNamespace(curvature_type=v))
+            val = bool(eval(compile(ast.Expression(guard.test), "<guard>", "eval"), dict(M.__dict__), dict(self=me)))
+            if val != (v in computing):
+                bad.append(dict(curvature_type=v, registered_for_output=val, computed=v in computing))
+    S.static_vc("file-contents", FN_G, "curl_bOverB_x/y/z are registered for output for exactly the curvature types that compute them (%s)" % sorted(set(computing)), ok and not bad, detail=repr(bad), kind="ast-frame", model=bad[0] if bad else None)
+
+
 def run_mesh_option_mismatch(ctx):
     """Mesh.__init__'s consistency loop (sliced): raises iff some shared key differs."""
     from hypnotoad.core import mesh as M
@@ -134,6 +168,7 @@ def build(S):
     S.assume("the validity of a generated file (finite values, positive hy, no folded cells) is decided on generated grids only (bounded); the deductive part covers the variable set, option checks and the definedness/guard obligations proved in C02, C03, C05, C06, C09, C10")
     S.assume("optionsfactory value checks (types, ranges) are an external dependency (assumed)")
     static_obligations(S)
+    curvature_output_guard(S)
     S.contract("Mesh.__init__[option consistency]", FN_M, run_mesh_option_mismatch, shape="one shared, one equilibrium-only, one mesh-only option")
     from vc.shim import numpy_shimmed
     from . import C08, C09
@@ -157,7 +192,8 @@ def post(S):
     cfgs = cfgs + [circ_cfg(100, y_boundary_guards=2), circ_cfg(100, y_boundary_guards=0)]
     # optional post-processing of the curvature, with and without a toroidal field (the shipped
     # example has none: two curvature components are then identically zero)
-    cfgs += [gb.cfg("lsn", dict(orthogonal=True), fpol="const", label="lsn-orth-noBt (as the shipped example)"), gb.cfg("lsn", dict(orthogonal=True, curvature_smoothing="smoothnl"), fpol="const", label="lsn-orth-smoothnl-noBt"), gb.cfg("lsn", dict(orthogonal=True, curvature_smoothing="smoothnl"), fpol="profile", pressure=True, label="lsn-orth-smoothnl")]
+    cfgs += [gb.cfg("lsn", dict(orthogonal=True, nx_core=10, nx_sol=10, ny_inner_divertor=8, ny_outer_divertor=8, ny_sol=24, curvature_type="curl(b/B) with x-y derivatives"), psi_sign=1.0, label="lsn-fine-xy(psi+1)", fpol="profile", pressure=True),
+             gb.cfg("lsn", dict(orthogonal=True), fpol="const", label="lsn-orth-noBt (as the shipped example)"), gb.cfg("lsn", dict(orthogonal=True, curvature_smoothing="smoothnl"), fpol="const", label="lsn-orth-smoothnl-noBt"), gb.cfg("lsn", dict(orthogonal=True, curvature_smoothing="smoothnl"), fpol="profile", pressure=True, label="lsn-orth-smoothnl")]
     gridrun.run(S, ["file_valid", "file_topology"], FN_W, cfgs=cfgs, name="validity predicate on the grid file of every reference configuration")
     hostile(S)
 
